@@ -689,6 +689,7 @@ func checkProperty(opt *Options, start time.Time) int {
 	var funcs []string
 	notes := map[string]bool{}
 	covers, coversOK, coversUnk := 0, 0, 0
+	nSample := map[int]int{}
 	type slow struct {
 		n string
 		t float64
@@ -752,8 +753,15 @@ func checkProperty(opt *Options, start time.Time) int {
 				pb["count"]++
 				pb["seconds"] += o.Time
 				slows = append(slows, slow{o.Name, o.Time, o.Solver})
-				if len(samples) < 12 {
-					samples = append(samples, map[string]interface{}{"obligation": o.Name, "kind": o.Kind, "at": o.Pos, "result": "discharged", "solver": o.Solver, "seconds": round3(o.Time)})
+				// samples: the contract-level obligations first (postconditions, invariants, site clauses), then safety
+				prio := map[string]int{"post": 0, "lockinv": 0, "site": 0, "loop-step": 1, "iter-step": 1, "lemma": 0, "site-lemma": 1, "pre": 2}
+				pr, ok := prio[o.Kind]
+				if !ok {
+					pr = 3
+				}
+				if nSample[pr] < 6 {
+					nSample[pr]++
+					samples = append(samples, map[string]interface{}{"obligation": o.Name, "kind": o.Kind, "at": o.Pos, "result": "discharged", "solver": o.Solver, "seconds": round3(o.Time), "formula": trunc(o.Phi, 400)})
 				}
 			} else {
 				failed = append(failed, o)
@@ -969,4 +977,11 @@ func mutationSelftest(opt *Options) []map[string]interface{} {
 		os.RemoveAll(tmp)
 	}
 	return out
+}
+
+func trunc(s string, n int) string {
+	if len(s) > n {
+		return s[:n] + "..."
+	}
+	return s
 }
